@@ -663,6 +663,63 @@ STREAMS.update({
     ),
 })
 
+def truth_oracle(req, ans):
+    """C02: the transcript of the real decoders against the transcript written from the semantic message"""
+    c = crash_oracle(req, ans)
+    if c:
+        return c
+    t = req.split(" ")
+    exp = [x for x in t[2:] if x.startswith("exp=")]
+    if not exp:
+        return None
+    want = exp[0][4:]
+    got = ans.replace(" ", "")
+    if got == want:
+        return None
+    names = ["flag accessors", "sequential reader", "iterator header", "iterator question()", "iterator questions", "iterator records"]
+    for i, (a, b) in enumerate(zip(want.split("|"), got.split("|"))):
+        if a != b:
+            ai, bi = a.split(";"), b.split(";")
+            for j, (x, y) in enumerate(zip(ai, bi)):
+                if x != y:
+                    return "%s, item %d: decoded %s, encoded %s" % (names[min(i, 5)], j, y[:120], x[:120])
+            return "%s: %d items decoded, %d encoded" % (names[min(i, 5)], len(bi), len(ai))
+    return "transcripts differ in length"
+
+
+def truth_key(req, ans):
+    s = ans.split(" | ")
+    if len(s) < 2 or not s[1].startswith("S=H:"):
+        return "truth:other"
+    items = s[1][2:].split(";")
+    h = items[0].split(":")
+    shape = "".join("1" if int(x) else "0" for x in h[3:7])
+    kinds = set()
+    for it in items:
+        if it.startswith("R:"):
+            d = it.split(":")[9]
+            kinds.add("opt" if d == "opt" else ("raw" if d == "raw" else "typed"))
+    return "shape(q,an,ns,ar)=%s kinds=%s" % (shape, "+".join(sorted(kinds)) or "-")
+
+
+import spec_c09
+
+STREAMS.update({
+    "truth": dict(
+        kinds=["truth"], quick=20000, thorough=600000,
+        canon=ident, proj=lambda req, ans: ans, impl_oracle=truth_oracle,
+        nontrivial=lambda req, ans: ";R:" in ans,
+        outcome_key=truth_key,
+    ),
+    "seekhist": dict(
+        kinds=["seekhist"], quick=30000, thorough=1000000,
+        canon=ident, proj=lambda req, ans: proj_tokens_ok_exact(req, ans), impl_oracle=lambda req, ans: reader_oracle_conf(req, ans.replace(" #L# ", " ")) or spec_c09.oracle(req, ans),
+        nontrivial=lambda req, ans: "seek" in req and " ok " in ans,
+        outcome_key=spec_c09.classify,
+    ),
+})
+
+
 def typecheck_special(ctx):
     """C19: the compiler's verdict. `cargo check` of harness/typecheck against /repo's working tree."""
     import os, shutil, time
@@ -750,6 +807,46 @@ PROPS = {
         streams=[dict(name="roundtrip"), dict(name="text", quick=20000), dict(name="name", quick=10000)],
         explanation="C05: parse_agree / check_total / decoded_len theorems; oracle: decode→re-parse must succeed with an equal name, "
                     "encode→decode must return the canonical spelling within 255 octets, encoder and parsers must accept the same strings.",
+    ),
+    "C02": dict(
+        level="proof", module="Rsdns.Props.C02",
+        technique="Lean 4 theorems (header / flag word / OPT / question / record-header decode to exactly the encoded values for every legal name layout, section by running counters) + ground-truth transcript written from the semantic message",
+        level_text="Proved for every message and every legal layout of the names involved (any mix of in-place labels and backward "
+                   "compression pointers): the header is six big-endian fields in wire order, the flag accessors are the RFC 1035 bit "
+                   "fields, the OPT accessors the RFC 6891 split of CLASS/TTL, a question decodes to (name, QTYPE, QCLASS), a record "
+                   "header to (owner, TYPE, CLASS, TTL, RDLENGTH, offsets) with the section the running counters prescribe "
+                   "(C09.header_attribution) — for every reader instantiation. On the implementation, well-formed messages are "
+                   "generated from a semantic description (any id/flags, 0..3 questions, the 17 data types, OPT, unknown types and "
+                   "classes, three compression modes) and the transcripts of MessageReader and MessageIterator are compared field by "
+                   "field with the transcript written from the description.",
+        level_note="PARTIAL proof: the per-type RDATA *values* and the whole-message induction (`decode_wellformed`) are decided by the "
+                   "ground-truth oracle + correspondence; exact RDATA consumption is C04. QTYPE-only codes 252..255 are not generated "
+                   "as record types. Trusted: Lean kernel; model of reader.rs/records.rs (validated by the `truth`/`views` streams); "
+                   "tools/extract.py for the bit expressions; the generator's encoder (harness/src/streams/msggen.rs).",
+        streams=[dict(name="truth"), dict(name="views", quick=8000)],
+        explanation="C02: flags_layout, opt_layout, header_fields, question_decode, record_header_decode; stream `truth` "
+                    "(expected transcript from the semantic message) + `views`.",
+    ),
+    "C09": dict(
+        level="proof", module="Rsdns.Props.C09",
+        technique="Lean 4 invariant + refinement proof (error latch over every call; section tracker refines the linear pass along all conforming histories; documented seek criterion as an invariant) + reference automaton over one linear pass on the real code",
+        level_text="Proved for all states / all conforming histories of unbounded length: `done` is sticky and every failing sequential "
+                   "call latches it (a seek answered RecordsSectionOffsetUnknown changes nothing); an exhausted reader reports "
+                   "ReaderDone; the tracker's counters and lazily learned offsets satisfy a coupling invariant with the layout of one "
+                   "linear pass (learned offsets are the true section starts, record headers are attributed to the section of the "
+                   "current index, a seek to a known section lands on its first record or the next non-empty one); and the documented "
+                   "seek criterion — read up to the last record of the first non-empty preceding section, or beyond — implies the "
+                   "offset is known (doc_known), hence seek succeeds (seek_known). On the implementation a specification automaton "
+                   "replays each generated history against ONE linear pass of the same message on a fresh reader and checks every "
+                   "returned item, every count and every seek outcome.",
+        level_note="PARTIAL proof: the history theorem is stated over the tracker at the positions of the linear pass (`Lay`); that the "
+                   "cursor of the byte-level reader stands at those positions after each call (kind-independence of positions, which "
+                   "follows from C08.skip_of_read and C04.next_after_data) is decided by the automaton + correspondence, not yet "
+                   "composed into one theorem; 'record offsets grow' is checked on the linear pass by the automaton. Trusted: Lean "
+                   "kernel; model of reader.rs/section_tracker.rs (validated by `seekhist`/`reader`); tools/spec_c09.py.",
+        streams=[dict(name="seekhist"), dict(name="reader", quick=8000)],
+        explanation="C09: done_sticky, *_error_latches, seek_error, seek_known, exhausted_reports_done, header_attribution, "
+                    "data_advances, last_question, seek_index, seek_lands, doc_known, learned_offsets_true; stream `seekhist`.",
     ),
     "C06": dict(
         level="proof", module="Rsdns.Props.C06",
